@@ -29,6 +29,10 @@ def ulp_equal(a, b, n=4):
     return bool(np.all(np.abs(a - b) <= n * np.spacing(np.maximum(np.abs(a), np.abs(b)))))
 
 
+class InjectedValueError(ValueError):
+    """A collaborator (antenna) refusing a delivery with a ValueError."""
+
+
 class C10Kernel(Machine):
     prop_id = "C10"
     name = "kernel"
@@ -53,6 +57,7 @@ class C10Kernel(Machine):
     assumptions = ["signal values are not judged (C03/C07/C08), tracer correctness is not judged (C01/C02)",
                    "events_thrown is compared with the generator count delta since the last successful add"]
     required_counters = ("probe.signals_delivered", "fault.signal_model_raised", "fault.generator_exhausted",
+                         "fault.antenna_rejected",
                          "fault.writer_rejected", "probe.no_solution", "probe.offcone_empty",
                          "probe.weight_cut", "probe.real_writer_readback")
 
@@ -85,7 +90,8 @@ class C10Kernel(Machine):
                     "direction": [rng.uniform(-1, 1), rng.uniform(-1, 1), rng.uniform(-1, 0.3)],
                     "energy": rng.pick([1e8, 1e9, 1e10]),
                     "kind": rng.pick(["cc", "nc"]),
-                    "sw": rng.pick([1.0, 0.5, 1e-3, None]), "iw": rng.pick([1.0, 1e-2, 1e-6, None])})
+                    "sw": rng.pick([1.0, 0.5, 1e-3, None, 0.0]),
+                    "iw": rng.pick([1.0, 1e-2, 1e-6, None, 0.0])})
             events.append(parts)
         return {"n_steps": rng.randint(1, 5), "tracer": tracer, "model": model, "generator": gen,
                 "antennas": ants, "events": events, "loop": rng.chance(0.5),
@@ -147,12 +153,21 @@ class C10Kernel(Machine):
         self.writer_log = []       # kwargs of every writer.add call
         self.model_fault_at = None
         self.writer_fault = False
+        self.antenna_fault_at = None
+        self.antenna_fault_fired = None
         self.first_receive_calls = {}
         self.max_receive_ratio = 0.0
 
         class SpyAntenna(P.Antenna):
             def receive(self, signal, direction=None, polarization=None, force_real=False):
                 sigs = list(signal) if hasattr(signal, "__len__") else [signal]
+                if machine.antenna_fault_at is not None:
+                    machine.antenna_fault_at -= 1
+                    if machine.antenna_fault_at <= 0:
+                        machine.antenna_fault_at = None
+                        machine.antenna_fault_fired = (self._spy_index, len(machine.receive_log))
+                        machine.receive_log.append({"ant": self._spy_index, "rejected": True})
+                        raise InjectedValueError("injected: antenna refuses this delivery")
                 machine.receive_log.append({
                     "ant": self._spy_index, "times": [np.array(s.times, dtype=float) for s in sigs],
                     "zero": all(not np.any(np.asarray(s.values)) for s in sigs),
@@ -335,7 +350,10 @@ class C10Kernel(Machine):
         if max(len(a.signals) for a in self.antennas) > self.MAX_SIGNALS:
             return {"op": "clear", "reset_noise": False}
         k = rng.weighted([("event", 4.0), ("clear", 1.0), ("arm_model_fault", 0.7),
+                          ("arm_antenna_fault", 0.5),
                           ("arm_writer_fault", 0.5 if self.cfg["writer"] != "none" else 0.0)])
+        if k == "arm_antenna_fault":
+            return {"op": "arm_antenna_fault", "nth": rng.randint(1, 5)}
         if k == "event":
             return {"op": "event"}
         if k == "clear":
@@ -354,6 +372,9 @@ class C10Kernel(Machine):
         if name == "arm_model_fault":
             self.model_fault_at = op["nth"]
             return ["armed", op["nth"]]
+        if name == "arm_antenna_fault":
+            self.antenna_fault_at = op["nth"]
+            return ["armed-antenna", op["nth"]]
         if name == "arm_writer_fault":
             if self.writer is None:
                 raise Skip("no writer")
@@ -406,7 +427,25 @@ class C10Kernel(Machine):
         count_before = gen.count
         writer_fault_armed = self.writer_fault and self.writer is not None
         self.last_event = None
+        self.antenna_fault_fired = None
         st, res = self.sut(self.kernel.event, expect=(Exception,), where="kernel.event")
+        if self.antenna_fault_fired is not None:
+            # an antenna refused a delivery: the error must surface, and the antenna must
+            # not be handed anything else in place of the refused delivery
+            self.count("fault.antenna_rejected")
+            self.nontrivial = True
+            ant_i, pos = self.antenna_fault_fired
+            if not (st == "raised" and isinstance(res, InjectedValueError)):
+                raise Violation("C10:antenna-error-swallowed",
+                                "antenna %d refused a delivery with ValueError but kernel.event() %s"
+                                % (ant_i, "returned normally" if st == "ok" else "raised %r" % (res,)))
+            if len(self.receive_log) != pos + 1:
+                raise Violation("C10:delivery-after-refusal", "deliveries continued after an antenna refused one")
+            for a in self.antennas:
+                a.clear()
+            if self.last_event is not None:
+                self.events_drawn += 1
+            return ["event", "antenna-rejected"]
         if st == "raised" and not isinstance(res, (StopIteration, seams.InjectedFault)):
             if self.exhausted_seen and isinstance(res, OSError) and self.last_event is None:
                 # a file generator asked again after it has stopped: still "stopped"
